@@ -162,6 +162,8 @@ def add_entry(L, rng, workdirs, a, tag, used, kinds=None, spellings=None,
         lv = rng.choice(vols)
         L.add({'p': workdirs[lv] + '/pl%d' % a, 't': 'l', 'to': '@/' + d})
         spelling = os.path.relpath('/' + workdirs[lv], '/' + cwd) + '/pl%d/' % a + name
+    if spelling.startswith('@') and sp not in ('abs', 'abs_trail'):
+        spelling = './' + spelling      # '@' is the harness's root placeholder
     return {'spelling': spelling, 'class': sp, 'kind': kind, 'rel': rel,
             'target': tgt_rel}
 
